@@ -146,9 +146,9 @@ func (t c25Tuple) viaICE() (ice.Candidate, error) {
 // c25Parsed is what the check's own tokenizer reads from a candidate string.
 type c25Parsed struct {
 	Foundation, Component, Proto, Priority, Addr, Port, Typ string
-	RelAddr, RelPort, TCPType                                string
-	Ext                                                      []c25Ext
-	Err                                                      string
+	RelAddr, RelPort, TCPType                               string
+	Ext                                                     []c25Ext
+	Err                                                     string
 }
 
 // c25Tokenize: RFC 5245 15.1 with single-space separators; an empty token is an
@@ -455,7 +455,7 @@ func (e *c25Env) roundTrip(pc *PeerConnection, acc *c25Acc, path string, t c25Tu
 	}
 	if err != nil {
 		// not a candidate pion can represent along this path
-		acc.outcomes["not-representable|" + path] = struct{}{}
+		acc.outcomes["not-representable|"+path] = struct{}{}
 
 		return
 	}
@@ -463,7 +463,7 @@ func (e *c25Env) roundTrip(pc *PeerConnection, acc *c25Acc, path string, t c25Tu
 	c.Guard(path+"|"+t.line(), rc, func() {
 		cand, err := newICECandidateFromICE(src, "0", 0)
 		if err != nil {
-			acc.outcomes["not-representable|" + path] = struct{}{}
+			acc.outcomes["not-representable|"+path] = struct{}{}
 
 			return
 		}
@@ -514,7 +514,7 @@ func (e *c25Env) roundTrip(pc *PeerConnection, acc *c25Acc, path string, t c25Tu
 
 			return
 		}
-		acc.outcomes["roundtrip-ok|" + path] = struct{}{}
+		acc.outcomes["roundtrip-ok|"+path] = struct{}{}
 		acc.distinct["A|"+path+"|"+t.Typ+"|"+t.Proto+"|"+t.AddrForm+"|tcptype="+t.TCPType+"|rel="+strconv.FormatBool(t.RelAddr != "")+"|"+t.extShape()] = struct{}{}
 	})
 }
